@@ -148,6 +148,24 @@ def mutations(gc, P, comp_bytes, unc_bytes, rng, pool):
                     t = bytearray(src)
                     t[48 * fi] |= bit
                     out.append(('flagbits-in-field%d' % fi, form, bytes(t)))
+        # the same stray bits in SEVERAL later fields (their first bytes sit in equivalent positions of every 2-, 4-, 8-, 16-byte lane): a
+        # comparison with the canonical form that folds differences with xor or + instead of or sees them cancel
+        later = list(range(1, nfields))
+        for a in range(len(later)):
+            for b in range(a + 1, len(later)):
+                for bit in (0x20, 0x80, 0xe0):
+                    t = bytearray(src)
+                    t[48 * later[a]] |= bit
+                    t[48 * later[b]] |= bit
+                    out.append(('flagbits-in-fields%d+%d' % (later[a], later[b]), form, bytes(t)))
+        if len(later) >= 3:
+            t = bytearray(src)
+            for fi in later:
+                t[48 * fi] |= 0x40
+            out.append(('flagbits-in-all-later-fields', form, bytes(t)))
+            # ... and pairs that cancel under addition: 0x80 + 0x80 wraps a byte, 0x40 + 0x40 + 0x80
+            t = bytearray(src); t[48 * later[0]] |= 0x40; t[48 * later[1]] |= 0x40; t[48 * later[2]] |= 0x80
+            out.append(('flagbits-summing-to-zero', form, bytes(t)))
     # a point of an isomorphic curve y^2 = x^3 + lambda^6 b: (lambda^2 x, lambda^3 y).  The group-law formulas never use b, so
     # multiplication by r still gives the identity: only the curve-equation check can reject it (uncompressed form)
     for _ in range(2):
@@ -203,6 +221,25 @@ def degenerate_y_points(rng, n):
     return out
 
 
+def boundary_y_points(rng, n):
+    """G1 curve points whose y sits at the boundary of the sort rule: the Montgomery form of y is (q-1)/2 - d or (q+1)/2 + d for d = 0, 1,
+    2^j, a few random d below 2^20 / 2^64 - the neighbourhood in which 'is y greater than -y' flips.  (Not subgroup points in general.)"""
+    out = []
+    half = (Q - 1) // 2
+    rinv = pow(O.RQ, -1, Q)
+    ds = [0, 1, 2, 3] + [1 << j for j in (4, 8, 12, 14, 15, 16, 20, 32, 63, 64)] + [rng.randrange(1 << 15), rng.randrange(1 << 20), rng.randrange(1 << 64)]
+    rng.shuffle(ds)
+    for d in ds:
+        for ym in (half - d, half + 1 + d):
+            y = ym * rinv % Q
+            x = O.fq_cbrt((y * y - 4) % Q)
+            if x is not None:
+                out.append(((x, y), d))
+        if len(out) >= n:
+            break
+    return out
+
+
 def worker(sh):
     rng = sh.rng
     lines, meta = [], []
@@ -231,6 +268,15 @@ def worker(sh):
                     meta.append(('marshal', gc, P, comp, 'deg%d' % j))
                 lines.append('c.%s_marshal 1 %s' % (cn, gc.aff(gc.E.neg(P))))
                 meta.append(('marshal-neg', gc, P, 1, 'deg%d' % j))
+        if which == 1 and sh.index < 8:
+            for j, (P, d) in enumerate(boundary_y_points(rng, 6)):
+                assert O.E1.on_curve(P)
+                degs['bnd%d' % j] = P
+                for comp in (1, 0):
+                    lines.append('c.%s_marshal %d %s' % (cn, comp, gc.aff(P)))
+                    meta.append(('marshal', gc, P, comp, 'bnd%d' % j))
+                lines.append('c.%s_marshal 1 %s' % (cn, gc.aff(gc.E.neg(P))))
+                meta.append(('marshal-neg', gc, P, 1, 'bnd%d' % j))
         # run marshal first to learn the library's encodings (needed to build the hostile neighbourhood)
         sh.payload.setdefault('_stage', {})[which] = (gc, tab, pool, ks, len(lines), degs)
     outs = session.run_all(sh, sh.payload['cfgs'], lines)
@@ -262,6 +308,11 @@ def worker(sh):
                 if comp:
                     if not (fl & F_COMP) or (fl & F_INF):
                         fail('flag bits wrong', 'format:%s:flags' % name)
+                    # which of y, -y carries the flag is part of the wire format: the root the library's sort rule calls greater
+                    if bool(fl & F_GT) != O.sort_greater(gc.which, P[1]):
+                        fail('greater flag does not follow the sort rule (order of the Montgomery forms of y and -y)', 'format:%s:greater-rule' % name)
+                    if isinstance(k, str) and k.startswith('bnd'):
+                        sh.event(name, 'comp/y-at-sort-boundary')
                 else:
                     if fl != 0:
                         fail('uncompressed encoding carries flag bits', 'format:%s:flags' % name)
@@ -286,7 +337,7 @@ def worker(sh):
         cn = gc.cname
         nf = 48 if which == 1 else 96
         for dk, P in degs.items():
-            kindy = 'real' if P[1][1] == 0 else 'imaginary'
+            kindy = 'sort-boundary' if which == 1 else ('real' if P[1][1] == 0 else 'imaginary')
             for key, pt, comp in ((1, P, 1), ('neg', gc.E.neg(P), 1), (0, P, 0)):
                 data = encs.get((which, dk, key))
                 if data is not None:
